@@ -184,6 +184,7 @@ COUNTER_ATTRS = [
     "n_identity_checks",
     "n_restore_checks",
     "n_lazy_checks",
+    "n_unchanged_checks",
     "n_ctx_checks",
     "n_ctx_exclusive",
     "n_ctx_must_be_paused",
